@@ -22,8 +22,9 @@ RULES = {
     'R9': 'the client is never told to try again by a dead server: in qb_ipcc_send, qb_ipcc_sendv and qb_ipcc_sendv_recv every return that can be -EAGAIN (flow control on, request queue full) comes from a call that consults the liveness socket (reaches qb_ipc_us_ready) - a killed server leaves flow control on and the queue full for ever; and once the disconnect is known (is_connected false) qb_ipcc_recv does not wait',
     'R10': 'descriptor 0 is a descriptor: no teardown or cleanup path of the transports decides whether a socket is open by comparing it with > 0 (the server\'s accept() returns 0 when stdin is closed; skipping it leaves its poll entry behind, and the entry outlives the connection), and the client\'s connect cleanup closes a socket only where it is known to have been opened (>= 0, after being preset to -1) - it used to close(0) for sockets it had never opened',
     'R11': 'what is not a disconnect is not taken for one (is_connected, once cleared, stays cleared and the client then no longer waits): qb_ipc_us_sock_error_is_disconnected, evaluated for each error code, answers no for the transient results - EAGAIN, ETIMEDOUT, EINTR, EMSGSIZE, ENOMSG, EINVAL and ENOBUFS (the caller\'s receive buffer is too small for the message that is waiting) - and yes for ENOTCONN, ECONNRESET, EPIPE, ESHUTDOWN, EBADF',
+    'R12': 'the last reference takes the connection off the service\'s list and gives the service reference back on every path to the free (= C04.R3): a client that dies while its connection is being set up (state ACTIVE, set back to INACTIVE by the teardown) is not freed while still listed',
 }
-FLOORS = {'R1': 9, 'R2': 10, 'R3': 11, 'R4': 7, 'R5': 5, 'R6': 3, 'R7': 2, 'R8': 2, 'R9': 7, 'R10': 3, 'R11': 12}
+FLOORS = {'R1': 9, 'R2': 10, 'R3': 11, 'R4': 7, 'R5': 5, 'R6': 3, 'R7': 2, 'R8': 2, 'R9': 7, 'R10': 3, 'R11': 12, 'R12': 2}
 
 POLLNVAL, POLLHUP, POLLIN = 0x20, 0x10, 0x1
 
@@ -40,6 +41,14 @@ def run(ctx):
     r9(ctx)
     r10(ctx)
     r11(ctx)
+    # R12 = the part of C04.R3 that is about cleaning up: nothing of a dead client's connection is left on the service's list
+    from rules import c04
+    sub = type(ctx)(ctx.prog, ctx.prop, ctx.tier, ctx.depth)
+    c04.r3(sub)
+    for r in sub.results:
+        if r['key'].endswith('-on-every-path-to-free'):
+            r['rule'] = 'R12'
+            ctx.results.append(r)
 
 
 def _scenario(f, init, tracked, mark_call, start=None, effect=None):
